@@ -1,6 +1,7 @@
 package main
 
 import (
+	"runtime"
 	"bytes"
 	"context"
 	"fmt"
@@ -103,17 +104,37 @@ func (ex *Exec) buildQueryFull(o *Obligation, modelTerms []*smt.Term, linearize 
 				asserts = append(asserts, a)
 			}
 		}
+	} else if ex.dropLinks {
+		// local query: the history links are left out, and so is every hypothesis conditional on a path that involves
+		// none of the link constants the obligation's own path condition is built from (facts of other loops, of the
+		// code before the loop, of the code before the last forgetting cut); unconditional facts (value ranges,
+		// axioms, entry conditions) stay
+		gl := ex.linksIn(o.Guard)
+		for i, a := range ex.assumes[:o.NAssume] {
+			if ex.histLinks[i] {
+				continue
+			}
+			if a.Kind == smt.KApp && a.Op == "=>" && ex.linksIn(a.Args[0])&gl == 0 {
+				continue
+			}
+			asserts = append(asserts, a)
+		}
+		asserts = append(asserts, o.Guard)
 	} else {
 		asserts = append(asserts, ex.assumes[:o.NAssume]...)
 		asserts = append(asserts, o.Guard)
 	}
 	var sks []*smt.Term
+	var negGoal *smt.Term
 	if !o.ExpectSat {
 		// universally quantified goals are skolemised here rather than by the solver, so that the
 		// assumptions can be instantiated at the skolem constants below
 		n := 0
+		ex.skMemo = map[[3]int]*smt.Term{}
 		goal := ex.skolemize(o.Goal, true, &n, &sks)
-		asserts = append(asserts, c.Not(goal))
+		ex.skMemo = nil
+		negGoal = c.Not(goal)
+		asserts = append(asserts, negGoal)
 	}
 	// ground instantiation of universally quantified assumptions at the index terms used by the goal
 	cands := ex.instCandidates(o)
@@ -131,11 +152,13 @@ func (ex *Exec) buildQueryFull(o *Obligation, modelTerms []*smt.Term, linearize 
 		}
 	}
 	if len(cands) > 0 {
+		ex.expMemo = map[[3]int]*smt.Term{}
 		for i, a := range asserts {
 			if c.HasQuant(a) {
 				asserts[i] = ex.expandForall(a, cands, true, 2)
 			}
 		}
+		ex.expMemo = nil
 	}
 	// second round: instantiation by matching modulo the offset. A hypothesis  forall q. ... A[off + q] ...  is
 	// instantiated for every ground read A[t] in the query (after the first round) at q := t - off; this is what
@@ -184,11 +207,13 @@ func (ex *Exec) buildQueryFull(o *Obligation, modelTerms []*smt.Term, linearize 
 			added = nil
 			if len(grounds) > 0 {
 				budget := 60
+				ex.matchMemo = map[[3]int]*smt.Term{}
 				for i, a := range asserts {
 					if c.HasQuant(a) && budget > 0 {
 						asserts[i] = ex.expandByMatching(a, grounds, true, &budget, &added)
 					}
 				}
+				ex.matchMemo = nil
 			}
 			from = added
 		}
@@ -236,6 +261,12 @@ func (ex *Exec) buildQueryFull(o *Obligation, modelTerms []*smt.Term, linearize 
 		sb.WriteString("))\n")
 		footer += sb.String()
 	}
+	if !slice && !ex.noSlice && !o.ExpectSat && len(modelTerms) == 0 {
+		asserts = dropOrphanBounds(asserts, negGoal, o.Guard)
+		if ex.coi > 0 && negGoal != nil {
+			asserts = coneOfInfluence(asserts, ex.coi, negGoal, o.Guard)
+		}
+	}
 	if linearize {
 		ex.W.C.DeclareFun("nl_mul", []smt.Sort{smt.Int, smt.Int}, smt.Int)
 		ex.W.C.DeclareFun("nl_mulr", []smt.Sort{smt.Real, smt.Real}, smt.Real)
@@ -246,7 +277,24 @@ func (ex *Exec) buildQueryFull(o *Obligation, modelTerms []*smt.Term, linearize 
 	return c.Script("", asserts, footer, modelTerms...)
 }
 
+// solverSlots bounds the number of solver processes running at once to the number of cores (minus two for the
+// generator): a solver's time limit then measures the solver, not the queue of its competitors.
+var solverSlots = make(chan struct{}, maxInt(2, runtime.NumCPU()-2))
+
+func maxInt(a, b int) int {
+	if a > b {
+		return a
+	}
+	return b
+}
+
 func runSolverCtx(ctx context.Context, sp solverSpec, script string, timeoutS int) (status, output string, secs float64) {
+	select {
+	case solverSlots <- struct{}{}:
+		defer func() { <-solverSlots }()
+	case <-ctx.Done():
+		return "timeout", "", 0
+	}
 	args := sp.cmd(timeoutS)
 	cctx, cancel := context.WithTimeout(ctx, time.Duration(timeoutS+2)*time.Second)
 	defer cancel()
@@ -303,9 +351,10 @@ func Solve2first(script, lin string, order []int) *SolveResult {
 	res := &SolveResult{Status: "unknown"}
 	t0 := time.Now()
 	st, out, secs := runSolver(solvers[order[0]], script, 1)
+	secs0 := secs
 	res.Tried = append(res.Tried, fmt.Sprintf("%s:%s:%.2fs", solvers[order[0]].name, st, secs))
 	if st == "unsat" || st == "sat" {
-		res.Status, res.Solver, res.Output, res.Time = st, solvers[order[0]].name, out, time.Since(t0).Seconds()
+		res.Status, res.Solver, res.Output, res.Time = st, solvers[order[0]].name, out, secs
 		return res
 	}
 	if st == "error" {
@@ -315,7 +364,7 @@ func Solve2first(script, lin string, order []int) *SolveResult {
 		st, out, secs := runSolver(solvers[order[0]], lin, 1)
 		res.Tried = append(res.Tried, fmt.Sprintf("%s(lin):%s:%.2fs", solvers[order[0]].name, st, secs))
 		if st == "unsat" {
-			res.Status, res.Solver, res.Output, res.Time, res.Linearized = st, solvers[order[0]].name+"(lin)", out, time.Since(t0).Seconds(), true
+			res.Status, res.Solver, res.Output, res.Time, res.Linearized = st, solvers[order[0]].name+"(lin)", out, secs0+secs, true
 			return res
 		}
 	}
@@ -325,29 +374,46 @@ func Solve2first(script, lin string, order []int) *SolveResult {
 
 // Solve2race: all solvers in `order` on the exact and the linearised script, first definite answer wins.
 func Solve2race(script, lin string, timeoutS int, order []int) *SolveResult {
+	return Solve2raceCtx(context.Background(), script, lin, timeoutS, order)
+}
+
+// Solve2raceCtx: as Solve2race; cancelling the context stops the solvers.
+func Solve2raceCtx(parent context.Context, script, lin string, timeoutS int, order []int) *SolveResult {
 	res := &SolveResult{Status: "unknown"}
 	t0 := time.Now()
 	type ans struct {
 		idx     int
 		lin     bool
+		nq      bool
 		st, out string
 		secs    float64
 	}
-	ctx, cancel := context.WithCancel(context.Background())
+	ctx, cancel := context.WithCancel(parent)
 	defer cancel()
 	n := 0
-	ch := make(chan ans, 2*len(order))
+	ch := make(chan ans, 2*len(order)+2)
+	if nq := abstractQuantifiers(script); nq != "" {
+		// the same query with every quantified hypothesis forgotten: "unsat" carries over (fewer hypotheses), nothing else does
+		n++
+		go func() {
+			st, out, secs := runSolverCtx(ctx, solvers[order[0]], nq, timeoutS)
+			if st != "unsat" {
+				st = "unknown"
+			}
+			ch <- ans{order[0], false, true, st, out, secs}
+		}()
+	}
 	for _, i := range order {
 		n++
 		go func(i int) {
 			st, out, secs := runSolverCtx(ctx, solvers[i], script, timeoutS)
-			ch <- ans{i, false, st, out, secs}
+			ch <- ans{i, false, false, st, out, secs}
 		}(i)
 		if lin != "" && i != 2 {
 			n++
 			go func(i int) {
 				st, out, secs := runSolverCtx(ctx, solvers[i], lin, timeoutS)
-				ch <- ans{i, true, st, out, secs}
+				ch <- ans{i, true, false, st, out, secs}
 			}(i)
 		}
 	}
@@ -357,9 +423,12 @@ func Solve2race(script, lin string, timeoutS int, order []int) *SolveResult {
 		if a.lin {
 			name += "(lin)"
 		}
+		if a.nq {
+			name += "(nq)"
+		}
 		res.Tried = append(res.Tried, fmt.Sprintf("%s:%s:%.2fs", name, a.st, a.secs))
 		if a.st == "unsat" || (a.st == "sat" && !a.lin) {
-			res.Status, res.Solver, res.Output, res.Time, res.Linearized = a.st, name, a.out, time.Since(t0).Seconds(), a.lin
+			res.Status, res.Solver, res.Output, res.Time, res.Linearized = a.st, name, a.out, a.secs, a.lin
 			cancel()
 			return res
 		}
@@ -372,6 +441,281 @@ func Solve2race(script, lin string, timeoutS int, order []int) *SolveResult {
 	}
 	res.Time = time.Since(t0).Seconds()
 	return res
+}
+
+// coneOfInfluence keeps the goal, the path condition and the hypotheses connected to them through shared constants
+// (a given number of rounds; heap bases, allocation frontiers, string literals and constants that occur in more than a quarter
+// of the hypotheses do not connect). Dropping hypotheses is sound for "unsat"; nothing else is concluded from such a
+// query.
+func coneOfInfluence(asserts []*smt.Term, rounds int, roots ...*smt.Term) []*smt.Term {
+	hubName := func(n string) bool {
+		return strings.HasPrefix(n, "H0_") || strings.HasPrefix(n, "v_H_") || strings.HasPrefix(n, "brk") || strings.HasPrefix(n, "v_brk") ||
+			strings.HasPrefix(n, "str!") || n == "iface_nil" || strings.HasPrefix(n, "v_cut") || strings.HasPrefix(n, "v_loop")
+	}
+	memo := map[int]map[int]bool{}
+	var constsOf func(t *smt.Term, into map[int]bool, seen map[int]bool)
+	constsOf = func(t *smt.Term, into map[int]bool, seen map[int]bool) {
+		if seen[t.ID] {
+			return
+		}
+		seen[t.ID] = true
+		if t.Kind == smt.KConst {
+			if !hubName(t.Op) {
+				into[t.ID] = true
+			}
+			return
+		}
+		for _, a := range t.Args {
+			constsOf(a, into, seen)
+		}
+	}
+	get := func(t *smt.Term) map[int]bool {
+		if m, ok := memo[t.ID]; ok {
+			return m
+		}
+		m := map[int]bool{}
+		constsOf(t, m, map[int]bool{})
+		memo[t.ID] = m
+		return m
+	}
+	freq := map[int]int{}
+	for _, a := range asserts {
+		for id := range get(a) {
+			freq[id]++
+		}
+	}
+	limit := len(asserts)/4 + 4
+	isRoot := map[*smt.Term]bool{}
+	rel := map[int]bool{}
+	for _, r := range roots {
+		if r == nil {
+			continue
+		}
+		isRoot[r] = true
+		for id := range get(r) {
+			if freq[id] <= limit {
+				rel[id] = true
+			}
+		}
+	}
+	picked := map[int]bool{}
+	for round := 0; round < rounds; round++ {
+		add := map[int]bool{}
+		for i, a := range asserts {
+			if picked[i] {
+				continue
+			}
+			hit := isRoot[a]
+			if !hit {
+				for id := range get(a) {
+					if rel[id] {
+						hit = true
+						break
+					}
+				}
+			}
+			if hit {
+				picked[i] = true
+				for id := range get(a) {
+					if freq[id] <= limit {
+						add[id] = true
+					}
+				}
+			}
+		}
+		for id := range add {
+			rel[id] = true
+		}
+	}
+	out := make([]*smt.Term, 0, len(picked))
+	for i, a := range asserts {
+		if picked[i] || isRoot[a] {
+			out = append(out, a)
+		}
+	}
+	return out
+}
+
+// dropOrphanBounds leaves out the hypotheses that only bound terms nothing else in the query mentions (the value ranges
+// and allocation-frontier facts recorded for every value that was ever loaded make up most of a query, and the solvers
+// pay for each of them in the arithmetic core). Dropping hypotheses is sound for "unsat"; a "sat" answer of such a
+// query is confirmed on the full one before it counts.
+func dropOrphanBounds(asserts []*smt.Term, keep ...*smt.Term) []*smt.Term {
+	type info struct {
+		subj []*smt.Term
+	}
+	bounds := map[int]*info{}
+	for i, a := range asserts {
+		var subj []*smt.Term
+		ineq := false
+		kept := false
+		for _, k := range keep {
+			kept = kept || k == a
+		}
+		if !kept && boundShape(a, &subj, &ineq) && ineq && len(subj) > 0 {
+			bounds[i] = &info{subj}
+		}
+	}
+	if len(bounds) == 0 {
+		return asserts
+	}
+	reach := map[int]bool{}
+	var visit func(t *smt.Term)
+	visit = func(t *smt.Term) {
+		if reach[t.ID] {
+			return
+		}
+		reach[t.ID] = true
+		for _, a := range t.Args {
+			visit(a)
+		}
+		for _, ps := range t.Pats {
+			for _, p := range ps {
+				visit(p)
+			}
+		}
+	}
+	for i, a := range asserts {
+		if bounds[i] == nil {
+			visit(a)
+		}
+	}
+	// a bound that mentions a reachable term is kept and makes the other terms it mentions reachable too (chains of
+	// inequalities through terms that occur nowhere else); what remains unreachable at the fixpoint is dropped
+	isBrk := func(t *smt.Term) bool {
+		return t.Kind == smt.KConst && (strings.HasPrefix(t.Op, "brk") || strings.HasPrefix(t.Op, "v_brk"))
+	}
+	kept := map[int]bool{}
+	for changed := true; changed; {
+		changed = false
+		for i := range asserts {
+			b := bounds[i]
+			if b == nil || kept[i] {
+				continue
+			}
+			any, other := false, false
+			for _, t := range b.subj {
+				if isBrk(t) {
+					continue
+				}
+				other = true
+				if reach[t.ID] {
+					any = true
+				}
+			}
+			if any || !other {
+				kept[i] = true
+				changed = true
+				for _, t := range b.subj {
+					if !isBrk(t) {
+						visit(t)
+					}
+				}
+			}
+		}
+	}
+	out := make([]*smt.Term, 0, len(asserts))
+	for i, a := range asserts {
+		if bounds[i] == nil || kept[i] {
+			out = append(out, a)
+		}
+	}
+	return out
+}
+
+// boundShape: t is built from and/not over comparisons of linear arithmetic; subj collects the maximal non-arithmetic
+// subterms, ineq is set when an order comparison occurs.
+func boundShape(t *smt.Term, subj *[]*smt.Term, ineq *bool) bool {
+	if t.Kind == smt.KLit {
+		return true
+	}
+	if t.Kind != smt.KApp {
+		return false
+	}
+	switch t.Op {
+	case "and", "not":
+		for _, a := range t.Args {
+			if !boundShape(a, subj, ineq) {
+				return false
+			}
+		}
+		return true
+	case "<", "<=", ">", ">=", "=":
+		if len(t.Args) != 2 || (t.Args[0].Sort != smt.Int && t.Args[0].Sort != smt.Real) {
+			return false
+		}
+		if t.Op != "=" {
+			*ineq = true
+		}
+		for _, a := range t.Args {
+			arithSubjects(a, subj)
+		}
+		return true
+	}
+	return false
+}
+
+func arithSubjects(t *smt.Term, subj *[]*smt.Term) {
+	if t.Kind == smt.KLit {
+		return
+	}
+	if t.Kind == smt.KApp && (t.Op == "+" || t.Op == "-" || t.Op == "*") {
+		for _, a := range t.Args {
+			arithSubjects(a, subj)
+		}
+		return
+	}
+	*subj = append(*subj, t)
+}
+
+// abstractQuantifiers forgets the quantified parts of a script: every outermost quantified formula is replaced by a
+// Boolean constant of its own (one constant per distinct text). The original script is the result with those constants
+// given particular values, so "unsat" for the result is "unsat" for the original; nothing else carries over. "" when
+// nothing is quantified or the script has a shape this textual pass does not handle.
+func abstractQuantifiers(script string) string {
+	if !strings.Contains(script, "(forall ") && !strings.Contains(script, "(exists ") {
+		return ""
+	}
+	lines := strings.Split(script, "\n")
+	out := make([]string, 0, len(lines)+16)
+	names := map[string]string{}
+	for _, l := range lines {
+		if !strings.Contains(l, "(forall ") && !strings.Contains(l, "(exists ") {
+			out = append(out, l)
+			continue
+		}
+		if !strings.HasPrefix(l, "(define-fun ") && !strings.HasPrefix(l, "(assert ") {
+			return ""
+		}
+		var sb strings.Builder
+		rest := l
+		for {
+			i := strings.Index(rest, "(forall ")
+			if j := strings.Index(rest, "(exists "); j >= 0 && (i < 0 || j < i) {
+				i = j
+			}
+			if i < 0 {
+				break
+			}
+			e := matchParen(rest[i:])
+			if e < 0 {
+				return ""
+			}
+			q := rest[i : i+e+1]
+			nm, ok := names[q]
+			if !ok {
+				nm = fmt.Sprintf("aq!%d", len(names))
+				names[q] = nm
+				out = append(out, "(declare-fun "+nm+" () Bool)")
+			}
+			sb.WriteString(rest[:i])
+			sb.WriteString(nm)
+			rest = rest[i+e+1:]
+		}
+		sb.WriteString(rest)
+		out = append(out, sb.String())
+	}
+	return strings.Join(out, "\n")
 }
 
 // parseValues parses the "(get-value ...)" answer into term-text -> value-text.
@@ -483,6 +827,26 @@ func (ex *Exec) instCandidates(o *Obligation) []*smt.Term {
 // expandForall conjoins ground instances to universally quantified subformulas in positive positions
 // (logically equivalent to the input; it only helps the solvers' instantiation).
 func (ex *Exec) expandForall(t *smt.Term, cands []*smt.Term, pos bool, depth int) *smt.Term {
+	c := ex.W.C
+	if !c.HasQuant(t) {
+		return t
+	}
+	// memo per query (shared subformulas of merged path conditions would otherwise be expanded once per path)
+	key := [3]int{t.ID, depth, 0}
+	if pos {
+		key[2] = 1
+	}
+	if r, ok := ex.expMemo[key]; ok {
+		return r
+	}
+	r := ex.expandForall1(t, cands, pos, depth)
+	if ex.expMemo != nil {
+		ex.expMemo[key] = r
+	}
+	return r
+}
+
+func (ex *Exec) expandForall1(t *smt.Term, cands []*smt.Term, pos bool, depth int) *smt.Term {
 	c := ex.W.C
 	switch t.Kind {
 	case smt.KQuant:
@@ -603,6 +967,24 @@ func (ex *Exec) skolemize(t *smt.Term, pos bool, n *int, sks *[]*smt.Term) *smt.
 	if !c.HasQuant(t) {
 		return t
 	}
+	key := [3]int{t.ID, 0, 0}
+	if pos {
+		key[2] = 1
+	}
+	if ex.skMemo != nil {
+		if r, ok := ex.skMemo[key]; ok {
+			return r
+		}
+	}
+	r := ex.skolemize1(t, pos, n, sks)
+	if ex.skMemo != nil {
+		ex.skMemo[key] = r
+	}
+	return r
+}
+
+func (ex *Exec) skolemize1(t *smt.Term, pos bool, n *int, sks *[]*smt.Term) *smt.Term {
+	c := ex.W.C
 	switch t.Kind {
 	case smt.KQuant:
 		if (pos && t.Op == "forall") || (!pos && t.Op == "exists") {
@@ -647,6 +1029,24 @@ func (ex *Exec) expandByMatching(t *smt.Term, grounds map[int][]*smt.Term, pos b
 	if *budget <= 0 || !c.HasQuant(t) {
 		return t
 	}
+	key := [3]int{t.ID, 0, 0}
+	if pos {
+		key[2] = 1
+	}
+	if ex.matchMemo != nil {
+		if r, ok := ex.matchMemo[key]; ok {
+			return r
+		}
+	}
+	r := ex.expandByMatching1(t, grounds, pos, budget, added)
+	if ex.matchMemo != nil {
+		ex.matchMemo[key] = r
+	}
+	return r
+}
+
+func (ex *Exec) expandByMatching1(t *smt.Term, grounds map[int][]*smt.Term, pos bool, budget *int, added *[]*smt.Term) *smt.Term {
+	c := ex.W.C
 	switch t.Kind {
 	case smt.KQuant:
 		if !(pos && t.Op == "forall") || len(t.Bound) != 1 || t.Bound[0].Sort != smt.Int {
